@@ -1059,3 +1059,12 @@ package keeper
 //@ requires msg != nil && k.Keeper != nil && msg.Misbehaviour != nil && msg.Misbehaviour.Header1 != nil && msg.Misbehaviour.Header1.Header != nil
 //@ ensures [handled-or-rejected] result1 == nil ==> $HandleConsumerMisbehaviour.called && $HandleConsumerMisbehaviour.consumerId == msg.ConsumerId && $HandleConsumerMisbehaviour.misbehaviour == *msg.Misbehaviour && $HandleConsumerMisbehaviour.ret == nil
 //@ ensures [rejection-propagates] $HandleConsumerMisbehaviour.called && $HandleConsumerMisbehaviour.ret != nil ==> result1 != nil
+
+// ---------------------------------------------------------------- C16: one consumer's credited rewards are split between its validators and the community pool
+
+//@ func Keeper.AllocateConsumerRewards
+//@ ensures [unknown-consumer-pays-nothing] old(k.GetConsumerChainId(ctx, consumerId)).1 != nil ==> result1 != nil && S == old(S) && E == old(E) && X == old(X)
+//@ ensures [validators-paid-from-the-pool-first] result1 == nil && $AllocateTokensToConsumerValidators.called ==> $AllocateTokensToConsumerValidators.consumerId == consumerId && $AllocateTokensToConsumerValidators.ret == nil
+//@ ensures [validator-failure-fails] $AllocateTokensToConsumerValidators.called && $AllocateTokensToConsumerValidators.ret != nil ==> result1 != nil
+//@ precall AllocateTokensToConsumerValidators [funds-moved-to-distribution-first] E == elog(old(E), eff_BankKeeper_SendCoinsFromModuleToModule(types.ConsumerRewardsPool, distrtypes.ModuleName, validatorsRewardsTrunc)) && $AllocateTokensToConsumerValidators.tokens == sdk.NewDecCoinsFromCoins(validatorsRewardsTrunc)
+//@ ensures [module-store-untouched] S == old(S)
